@@ -16,6 +16,7 @@ package main
 import (
 	"bytes"
 	"fmt"
+	"os"
 	"sort"
 
 	"github.com/ethereum/go-ethereum/common"
@@ -25,6 +26,7 @@ import (
 	"github.com/ethereum/go-ethereum/crypto"
 	"github.com/ethereum/go-ethereum/eth/protocols/snap"
 	"github.com/ethereum/go-ethereum/ethdb"
+	"github.com/ethereum/go-ethereum/log"
 	"github.com/ethereum/go-ethereum/rlp"
 	"github.com/ethereum/go-ethereum/trie"
 	"github.com/ethereum/go-ethereum/triedb"
@@ -277,6 +279,7 @@ type engine struct {
 	panicked bool
 	reqNodes int
 	okFills  int
+	undeliv  map[string]bool // requested and not yet answered with the right blob
 }
 
 func schemeName(s int) string {
@@ -287,7 +290,7 @@ func schemeName(s int) string {
 }
 
 func newEngine(scheme int, root common.Hash, pre [][2][]byte, tgt *target) *engine {
-	e := &engine{scheme: schemeName(scheme), db: rawdb.NewMemoryDatabase(), tgt: tgt, tags: map[string]bool{}}
+	e := &engine{scheme: schemeName(scheme), db: rawdb.NewMemoryDatabase(), tgt: tgt, tags: map[string]bool{}, undeliv: map[string]bool{}}
 	for _, kv := range pre {
 		e.db.Put(kv[0], kv[1])
 	}
@@ -347,6 +350,12 @@ func (e *engine) missing(k int) (paths []string, hashes []common.Hash, codes []c
 		csx = append(csx, B(c[:]))
 	}
 	e.obs = append(e.obs, L(I(0), ns, csx))
+	for i := range paths {
+		e.undeliv["n"+paths[i]+string(hashes[i][:])] = true
+	}
+	for _, c := range codes {
+		e.undeliv["c"+string(c[:])] = true
+	}
 	// oracle: only nodes of the target that are not already there are ever requested
 	e.reqNodes += len(paths)
 	if e.tgt != nil {
@@ -371,6 +380,26 @@ func (e *engine) missing(k int) (paths []string, hashes []common.Hash, codes []c
 		}
 	}
 	return
+}
+
+// filledSlots: which request slots a response fills (bookkeeping of the harness only:
+// responses are matched to the requested hashes in order, so with equal hashes in one
+// request a partial response fills the FIRST of them)
+func filledSlots(hashes []common.Hash, blobs [][]byte) []bool {
+	out := make([]bool, len(hashes))
+	j := 0
+	for _, b := range blobs {
+		h := crypto.Keccak256Hash(b)
+		for j < len(hashes) && hashes[j] != h {
+			j++
+		}
+		if j >= len(hashes) {
+			return make([]bool, len(hashes))
+		}
+		out[j] = true
+		j++
+	}
+	return out
 }
 
 type snapshot struct {
@@ -460,6 +489,16 @@ func (e *engine) deliver(kind int, paths []string, hashes []common.Hash, blobs [
 	}
 	if class == 2 {
 		e.okFills += int(fills - dups - nops)
+		filled := filledSlots(hashes, blobs)
+		for i, h := range hashes {
+			if filled[i] {
+				if kind == 1 {
+					delete(e.undeliv, "n"+paths[i]+string(h[:]))
+				} else {
+					delete(e.undeliv, "c"+string(h[:]))
+				}
+			}
+		}
 	}
 }
 
@@ -486,10 +525,37 @@ func (e *engine) final() {
 			e.fail("database entry %x is neither initial content nor a target node/code", k)
 		}
 	}
+	// progress: with every requested item answered and the target well formed, pending
+	// requests must leave something to fetch
+	if !e.panicked && e.sched.Pending() != 0 && len(e.undeliv) == 0 && e.tgt.complete {
+		if n, _, c := e.sched.Missing(0); len(n)+len(c) == 0 {
+			e.fail("scheduler stuck: %d requests pending, everything requested was delivered, nothing left to fetch", e.sched.Pending())
+		}
+	}
 	if e.panicked || e.sched.Pending() != 0 || e.sched.MemSize() != 0 {
 		return
 	}
 	e.tags["complete"] = true
+	// path scheme: no foreign node is left on the path above a node written by this sync
+	if e.scheme == rawdb.PathScheme && e.tgt.complete {
+		written := map[string]bool{}
+		for k, v := range ent {
+			if pv, ok := e.pre[k]; (!ok || !bytes.Equal(pv, v)) && (k[0] == 'A' || k[0] == 'O') {
+				written[k] = true
+			}
+		}
+		for k := range fin {
+			if _, isT := ent[k]; isT || (k[0] != 'A' && k[0] != 'O') || (k[0] == 'O' && len(k) < 33) {
+				continue
+			}
+			for w := range written {
+				if len(w) > len(k) && w[:len(k)] == k && (k[0] == 'A' || len(k) >= 33) {
+					e.fail("dangling node %x left above the synced node %x", k, w)
+					break
+				}
+			}
+		}
+	}
 	if !e.tgt.complete {
 		e.tags["target-malformed"] = true
 		return
@@ -738,13 +804,39 @@ func buildState(specs []acctSpec, bs *blobset) common.Hash {
 	return root
 }
 
-func randKey(r *Rng, pool []common.Hash) common.Hash {
+// maxShare bounds the shared nibble prefix: account keys share at most 62 nibbles, so
+// that no account-trie node sits at depth 64, where its path would clash with the
+// path of the storage root request (the clash acknowledged in trie.NewSyncPath: it
+// needs a 252-bit Keccak prefix collision between two addresses).
+func randKey(r *Rng, pool []common.Hash, maxShare int) common.Hash {
+	for {
+		k := randKey1(r, pool, maxShare)
+		ok := true
+		for _, o := range pool {
+			n := 0
+			for n < 64 && (k[n/2]>>(4*uint(1-n%2)))&15 == (o[n/2]>>(4*uint(1-n%2)))&15 {
+				n++
+			}
+			if n > maxShare {
+				ok = false
+			}
+		}
+		if ok {
+			return k
+		}
+	}
+}
+
+func randKey1(r *Rng, pool []common.Hash, maxShare int) common.Hash {
 	var k common.Hash
 	copy(k[:], r.Bytes(32))
 	if len(pool) > 0 && r.Chance(1, 2) {
 		// share a nibble prefix with an existing key: extension nodes, deep branches
 		o := pool[r.Intn(len(pool))]
 		n := []int{1, 2, 3, 4, 5, 6, 8, 15, 16, 40, 62, 63}[r.Intn(12)]
+		if n > maxShare {
+			n = maxShare
+		}
 		for i := 0; i < n; i++ {
 			if i%2 == 0 {
 				k[i/2] = k[i/2]&0x0f | o[i/2]&0xf0
@@ -752,8 +844,13 @@ func randKey(r *Rng, pool []common.Hash) common.Hash {
 				k[i/2] = k[i/2]&0xf0 | o[i/2]&0x0f
 			}
 		}
-		if k == o {
-			k[31] ^= 1
+		// differ at nibble n, so that exactly n nibbles are shared
+		if n%2 == 0 {
+			if k[n/2]&0xf0 == o[n/2]&0xf0 {
+				k[n/2] ^= 0x10
+			}
+		} else if k[n/2]&0x0f == o[n/2]&0x0f {
+			k[n/2] ^= 0x01
 		}
 	}
 	return k
@@ -763,7 +860,7 @@ func randSlots(r *Rng, n int) [][2][]byte {
 	var pool []common.Hash
 	var out [][2][]byte
 	for i := 0; i < n; i++ {
-		k := randKey(r, pool)
+		k := randKey(r, pool, 63)
 		pool = append(pool, k)
 		vl := []int{1, 1, 2, 8, 20, 32}[r.Intn(6)]
 		v := r.Bytes(vl)
@@ -777,7 +874,7 @@ func randSpecs(r *Rng, n int, big bool, malformed bool) []acctSpec {
 	var specs []acctSpec
 	var pool []common.Hash
 	for i := 0; i < n; i++ {
-		a := acctSpec{key: randKey(r, pool), nonce: uint64(r.Intn(3)), balance: r.U64() >> uint(r.Intn(64))}
+		a := acctSpec{key: randKey(r, pool, 62), nonce: uint64(r.Intn(3)), balance: r.U64() >> uint(r.Intn(64))}
 		pool = append(pool, a.key)
 		switch r.Intn(6) {
 		case 0, 1:
@@ -851,7 +948,7 @@ func mutate(r *Rng, specs []acctSpec) []acctSpec {
 		out = append(out, a)
 	}
 	for i := r.Intn(4); i > 0; i-- {
-		out = append(out, acctSpec{key: randKey(r, pool), balance: uint64(r.Intn(100)), slots: randSlots(r, r.Intn(3))})
+		out = append(out, acctSpec{key: randKey(r, pool, 62), balance: uint64(r.Intn(100)), slots: randSlots(r, r.Intn(3))})
 	}
 	return out
 }
@@ -1081,6 +1178,20 @@ func genCase(r *Rng, mode int) Sx {
 				outstanding = append(outstanding, q)
 				continue
 			}
+			var keepBlobs [][]byte
+			for _, x := range keep {
+				keepBlobs = append(keepBlobs, blobBytes(x))
+			}
+			filled := filledSlots(q.hashes, keepBlobs)
+			rest = outreq{kind: q.kind}
+			for j := range q.hashes {
+				if !filled[j] {
+					if q.kind == 1 {
+						rest.paths = append(rest.paths, q.paths[j])
+					}
+					rest.hashes = append(rest.hashes, q.hashes[j])
+				}
+			}
 			emitDeliver(q, keep)
 			history = append(history, q)
 			if len(rest.hashes) > 0 {
@@ -1120,7 +1231,7 @@ func genCase(r *Rng, mode int) Sx {
 
 func gen(r *Rng, tier string, emit func(Sx)) {
 	r = NewRng(r.U64())
-	n := 220
+	n := 480
 	if tier == "thorough" {
 		n = 4000
 	}
@@ -1139,6 +1250,9 @@ func gen(r *Rng, tier string, emit func(Sx)) {
 }
 
 func main() {
+	if os.Getenv("C12_LOG") != "" {
+		log.SetDefault(log.NewLogger(log.NewTerminalHandlerWithLevel(os.Stderr, log.LevelError, false)))
+	}
 	Main(Family{
 		ID: "C12",
 		Rule: "random account tries (0..30 accounts, clustered key prefixes, storage tries incl. identical ones, shared/large codes, " +
